@@ -153,3 +153,228 @@ Proof.
     apply (IH (dp * d0)); [nia | assumption | assumption |].
     rewrite !Z.rem_mul_r by lia. unfold coord in E0. now rewrite M, E0.
 Qed.
+
+Lemma nth_upd_same : forall l k v, (k < length l)%nat -> nth k (upd k v l) 0 = v.
+Proof. induction l; intros k v H; simpl in *; [lia|]. destruct k; simpl; [reflexivity | apply IHl; lia]. Qed.
+
+Lemma nth_upd_other : forall l k i v, i <> k -> nth i (upd k v l) 0 = nth i l 0.
+Proof.
+  induction l; intros k i v H; [destruct k; destruct i; reflexivity|].
+  destruct k; destruct i; simpl; try reflexivity; try lia. apply IHl; lia.
+Qed.
+
+Lemma nth_eq_all (a b : list Z) : length a = length b -> (forall i, (i < length a)%nat -> nth i a 0 = nth i b 0) -> a = b.
+Proof.
+  revert b. induction a as [|x a IH]; intros [|y b] L H; simpl in *; try lia; [reflexivity|].
+  f_equal; [apply (H O); lia | apply IH; [lia | intros i Hi; apply (H (S i)); lia]].
+Qed.
+
+(* ------------------------------------------------------------------------------------------ the walk *)
+
+Definition move_up (dp d cur : Z) := if coord dp d cur =? d - 1 then cur + dp - dp * d else cur + dp.
+Definition move_down (dp d cur : Z) := if coord dp d cur =? 0 then cur - dp + dp * d else cur - dp.
+Definition move (up : bool) := if up then move_up else move_down.
+Definition succ_coord (up : bool) (d c : Z) := if up then (c + 1) mod d else (c - 1) mod d.
+Definition dist (up : bool) (c t d : Z) := if up then dist_up c t d else dist_down c t d.
+
+Lemma move_eq up dp d cur : 0 < dp -> 0 < d ->
+  move up dp d cur = cur + dp * (succ_coord up d (coord dp d cur) - coord dp d cur).
+Proof.
+  intros Hdp Hd. pose proof (coord_range dp d cur Hd) as Hc.
+  destruct up; unfold move, move_up, move_down, succ_coord.
+  - rewrite (mod_cases d (coord dp d cur + 1)) by lia.
+    destruct (coord dp d cur =? d - 1) eqn:E; destruct (coord dp d cur + 1 <? 0) eqn:E1;
+      destruct (coord dp d cur + 1 <? d) eqn:E2; try lia; nia.
+  - rewrite (mod_cases d (coord dp d cur - 1)) by lia.
+    destruct (coord dp d cur =? 0) eqn:E; destruct (coord dp d cur - 1 <? 0) eqn:E1;
+      destruct (coord dp d cur - 1 <? d) eqn:E2; try lia; nia.
+Qed.
+
+Lemma succ_range up d c : 0 < d -> 0 <= succ_coord up d c < d.
+Proof. intros. destruct up; unfold succ_coord; apply Z.mod_pos_bound; lia. Qed.
+
+Lemma dist_zero up c t d : 0 < d -> 0 <= c < d -> 0 <= t < d -> dist up c t d = 0 -> c = t.
+Proof.
+  intros Hd Hc Ht. destruct up; unfold dist, dist_up, dist_down.
+  - rewrite (mod_cases d (t - c)) by lia. destruct (t - c <? 0) eqn:A; destruct (t - c <? d) eqn:B; lia.
+  - rewrite (mod_cases d (c - t)) by lia. destruct (c - t <? 0) eqn:A; destruct (c - t <? d) eqn:B; lia.
+Qed.
+
+Lemma dist_range up c t d : 0 < d -> 0 <= dist up c t d < d.
+Proof. intros. destruct up; unfold dist, dist_up, dist_down; apply Z.mod_pos_bound; lia. Qed.
+
+Lemma dist_succ up c t d : 0 < d -> 0 <= c < d -> 0 <= t < d -> c <> t ->
+  dist up (succ_coord up d c) t d = dist up c t d - 1.
+Proof.
+  intros Hd Hc Ht Hne. destruct up; unfold dist, dist_up, dist_down, succ_coord.
+  - rewrite (mod_cases d (c + 1)) by lia.
+    destruct (c + 1 <? 0) eqn:A; [lia|]. destruct (c + 1 <? d) eqn:B.
+    + rewrite (mod_cases d (t - (c + 1))), (mod_cases d (t - c)) by lia.
+      destruct (t - (c + 1) <? 0) eqn:C; destruct (t - c <? 0) eqn:D; destruct (t - (c + 1) <? d) eqn:E;
+        destruct (t - c <? d) eqn:F; lia.
+    + rewrite (mod_cases d (t - (c + 1 - d))), (mod_cases d (t - c)) by lia.
+      destruct (t - (c + 1 - d) <? 0) eqn:C; destruct (t - c <? 0) eqn:D; destruct (t - (c + 1 - d) <? d) eqn:E;
+        destruct (t - c <? d) eqn:F; lia.
+  - rewrite (mod_cases d (c - 1)) by lia.
+    destruct (c - 1 <? 0) eqn:A.
+    + rewrite (mod_cases d (c - 1 + d - t)), (mod_cases d (c - t)) by lia.
+      destruct (c - 1 + d - t <? 0) eqn:C; destruct (c - t <? 0) eqn:D; destruct (c - 1 + d - t <? d) eqn:E;
+        destruct (c - t <? d) eqn:F; lia.
+    + destruct (c - 1 <? d) eqn:B; [|lia].
+      rewrite (mod_cases d (c - 1 - t)), (mod_cases d (c - t)) by lia.
+      destruct (c - 1 - t <? 0) eqn:C; destruct (c - t <? 0) eqn:D; destruct (c - 1 - t <? d) eqn:E;
+        destruct (c - t <? d) eqn:F; lia.
+Qed.
+
+Fixpoint walk (n : nat) (j : nat) (up : bool) (dp d cur : Z) : list thop :=
+  match n with
+  | O => []
+  | S n' => let next := move up dp d cur in mkhop j up cur next :: walk n' j up dp d next
+  end.
+Fixpoint walk_end (n : nat) (up : bool) (dp d cur : Z) : Z :=
+  match n with O => cur | S n' => walk_end n' up dp d (move up dp d cur) end.
+
+(** the specification: dimension after dimension, in dimension j exactly dist (shorter way) hops in one direction *)
+Fixpoint spec_from (n : nat) (dims : list Z) (j : nat) (src cur dst : Z) : list thop :=
+  match n with
+  | O => []
+  | S n' =>
+      let dp := fst (stride dims j) in let d := snd (stride dims j) in
+      let up := right_way (coord dp d src) (coord dp d dst) d in
+      let k := Z.to_nat (dist up (coord dp d src) (coord dp d dst) d) in
+      walk k j up dp d cur ++ spec_from n' dims (S j) src (walk_end k up dp d cur) dst
+  end.
+Definition torus_spec (dims : list Z) (src dst : Z) := spec_from (length dims) dims 0 src src dst.
+
+Lemma walk_length_eq n j up dp d cur : length (walk n j up dp d cur) = n.
+Proof. revert cur. induction n; simpl; intros; [reflexivity | now rewrite IHn]. Qed.
+
+Definition inrange (dims : list Z) (x : Z) := x / prodz dims = 0.
+Definition cs (dims : list Z) (x : Z) := coords dims 1 x.
+
+Lemma find_dim_spec dims : posl dims -> forall k j0 dp cur dst, 0 < dp -> (k < length dims)%nat ->
+  (forall i, (i < k)%nat -> nth i (coords dims dp cur) 0 = nth i (coords dims dp dst) 0) ->
+  nth k (coords dims dp cur) 0 <> nth k (coords dims dp dst) 0 ->
+  find_dim dims j0 dp cur dst = Some ((j0 + k)%nat, dp * fst (stride dims k), snd (stride dims k)).
+Proof.
+  induction 1 as [|d0 r Hd Hr IH]; intros k j0 dp cur dst Hdp Hk Hlt Hne; [simpl in Hk; lia|].
+  destruct k as [|k]; simpl in *.
+  - destruct (coord dp d0 cur =? coord dp d0 dst) eqn:E; [lia|]. simpl. now rewrite Nat.add_0_r, Z.mul_1_r.
+  - pose proof (Hlt O ltac:(lia)) as H0. simpl in H0.
+    destruct (coord dp d0 cur =? coord dp d0 dst) eqn:E; [|lia]. simpl.
+    rewrite (IH k (S j0) (dp * d0) cur dst) by (try nia; try lia; try assumption; intros i Hi; apply (Hlt (S i)); lia).
+    destruct (stride r k) as [sdp dj]; simpl. replace (S j0 + k)%nat with (j0 + S k)%nat by lia.
+    now rewrite Z.mul_assoc.
+Qed.
+
+Lemma hops_at_dst f dims src dst : hops f dims src dst dst = [].
+Proof. destruct f; simpl; [reflexivity | now rewrite Z.eqb_refl]. Qed.
+
+Section Torus.
+  Variable dims : list Z.
+  Hypothesis Hpos : posl dims.
+  Variables src dst : Z.
+
+  Let DP k := fst (stride dims k).
+  Let DD k := snd (stride dims k).
+  Let C k x := coord (DP k) (DD k) x.
+
+  Lemma C_nth k x : (k < length dims)%nat -> nth k (cs dims x) 0 = C k x.
+  Proof. intros. unfold cs, C, DP, DD. rewrite nth_coords by (try lia; assumption). now rewrite Z.mul_1_l. Qed.
+
+  Lemma move_props up k cur : (k < length dims)%nat -> inrange dims cur ->
+    let nx := move up (DP k) (DD k) cur in
+    inrange dims nx /\ C k nx = succ_coord up (DD k) (C k cur) /\
+    (forall i, i <> k -> nth i (cs dims nx) 0 = nth i (cs dims cur) 0).
+  Proof.
+    intros Hk Hin nx.
+    pose proof (stride_pos dims Hpos k) as [P1 P2]. fold (DP k) in P1. fold (DD k) in P2.
+    assert (Es : stride dims k = (DP k, DD k)) by (unfold DP, DD; destruct (stride dims k); reflexivity).
+    pose proof (move_coords dims Hpos k 1 cur (succ_coord up (DD k) (C k cur)) (DP k) (DD k) ltac:(lia) Hk Es
+                  (succ_range up (DD k) (C k cur) P2)) as M.
+    cbv zeta in M. rewrite !Z.mul_1_l in M. fold (C k cur) in M.
+    assert (En : nx = cur + DP k * (succ_coord up (DD k) (C k cur) - C k cur))
+      by (unfold nx, C; apply move_eq; assumption).
+    rewrite <- En in M. destruct M as (A & B & _).
+    repeat split.
+    - unfold inrange in *. now rewrite B.
+    - rewrite <- !C_nth by assumption. unfold cs. rewrite A. apply nth_upd_same. now rewrite coords_length.
+    - intros i Hi. unfold cs. rewrite A. now apply nth_upd_other.
+  Qed.
+
+  Lemma cs_inj x y : inrange dims x -> inrange dims y -> cs dims x = cs dims y -> x = y.
+  Proof.
+    intros Hx Hy E. apply (coords_inj dims Hpos 1 x y); [lia | exact E | |].
+    - rewrite !Z.mul_1_l. unfold inrange in *. congruence.
+    - now rewrite !Z.mod_1_r.
+  Qed.
+
+  (** Lemma A: inside dimension k *)
+  Lemma walk_dim k up : (k < length dims)%nat -> up = right_way (C k src) (C k dst) (DD k) ->
+    forall n cur f, inrange dims cur -> inrange dims dst ->
+      (forall i, (i < k)%nat -> nth i (cs dims cur) 0 = nth i (cs dims dst) 0) ->
+      n = Z.to_nat (dist up (C k cur) (C k dst) (DD k)) ->
+      hops (n + f) dims src cur dst
+        = walk n k up (DP k) (DD k) cur ++ hops f dims src (walk_end n up (DP k) (DD k) cur) dst /\
+      let e := walk_end n up (DP k) (DD k) cur in
+      inrange dims e /\ C k e = C k dst /\
+      (forall i, i <> k -> nth i (cs dims e) 0 = nth i (cs dims cur) 0).
+  Proof.
+    intros Hk Hup.
+    pose proof (stride_pos dims Hpos k) as [P1 P2]. fold (DP k) in P1. fold (DD k) in P2.
+    induction n as [|n IH]; intros cur f Hin Hdst Hlt Hn.
+    - simpl. repeat split; try assumption; try reflexivity.
+      apply (dist_zero up _ _ (DD k)); try assumption; try (apply coord_range; assumption).
+      pose proof (dist_range up (C k cur) (C k dst) (DD k) P2). lia.
+    - assert (Hd : dist up (C k cur) (C k dst) (DD k) = Z.of_nat (S n)) by lia.
+      assert (Hne : C k cur <> C k dst).
+      { intro E. rewrite E in Hd. destruct up; unfold dist, dist_up, dist_down in Hd;
+          rewrite Z.sub_diag, Z.mod_0_l in Hd; lia. }
+      assert (Hcd : cur <> dst) by (intro E; apply Hne; now rewrite E).
+      destruct (move_props up k cur Hk Hin) as (I1 & I2 & I3).
+      set (nx := move up (DP k) (DD k) cur) in *.
+      assert (Hst : step dims src cur dst = Some (mkhop k up cur nx)).
+      { unfold step. rewrite (find_dim_spec dims Hpos k 0 1 cur dst) by
+          (try lia; try assumption; rewrite ?(C_nth k) by assumption; fold (cs dims cur); fold (cs dims dst);
+           rewrite ?C_nth by assumption; assumption).
+        rewrite Z.mul_1_l. fold (DP k). fold (DD k). fold (C k src). fold (C k dst). rewrite <- Hup.
+        destruct up; reflexivity. }
+      assert (Hn' : n = Z.to_nat (dist up (C k nx) (C k dst) (DD k))).
+      { rewrite I2. rewrite dist_succ; try assumption; try (apply coord_range; assumption). lia. }
+      assert (Hlt' : forall i, (i < k)%nat -> nth i (cs dims nx) 0 = nth i (cs dims dst) 0)
+        by (intros i Hi; rewrite I3 by lia; now apply Hlt).
+      destruct (IH nx f I1 Hdst Hlt' Hn') as (E1 & E2 & E3 & E4).
+      split.
+      + simpl. destruct (cur =? dst) eqn:Ecd; [lia|]. rewrite Hst. simpl h_to. fold nx. now rewrite E1.
+      + simpl. fold nx. repeat split; try assumption. intros i Hi. rewrite E4 by assumption. now apply I3.
+  Qed.
+
+  (** Lemma B: dimension after dimension *)
+  Lemma walk_all : inrange dims dst -> forall n k cur f, (k + n = length dims)%nat -> inrange dims cur ->
+    (forall i, (i < k)%nat -> nth i (cs dims cur) 0 = nth i (cs dims dst) 0) ->
+    (forall i, (k <= i)%nat -> nth i (cs dims cur) 0 = nth i (cs dims src) 0) ->
+    hops (length (spec_from n dims k src cur dst) + f) dims src cur dst = spec_from n dims k src cur dst.
+  Proof.
+    intros Hdst. induction n as [|n IH]; intros k cur f Hkn Hin Hlt Hge.
+    - simpl. assert (cur = dst).
+      { apply cs_inj; try assumption. apply nth_eq_all; [unfold cs; now rewrite !coords_length|].
+        intros i Hi. apply Hlt. unfold cs in Hi. rewrite coords_length in Hi. lia. }
+      subst. apply hops_at_dst.
+    - assert (Hk : (k < length dims)%nat) by lia.
+      simpl. fold (DP k). fold (DD k). fold (C k src). fold (C k dst).
+      set (up := right_way (C k src) (C k dst) (DD k)).
+      set (kk := Z.to_nat (dist up (C k src) (C k dst) (DD k))).
+      rewrite app_length, <- Nat.add_assoc.
+      assert (Hc : C k cur = C k src) by (rewrite <- !C_nth by assumption; apply Hge; lia).
+      assert (Hkk : kk = Z.to_nat (dist up (C k cur) (C k dst) (DD k))) by (now rewrite Hc).
+      destruct (walk_dim k up Hk eq_refl kk cur
+                  (length (spec_from n dims (S k) src (walk_end kk up (DP k) (DD k) cur) dst) + f)
+                  Hin Hdst Hlt Hkk) as (E1 & E2 & E3 & E4).
+      rewrite walk_length_eq in *.
+      rewrite E1. f_equal. apply IH; [lia | assumption | |].
+      + intros i Hi. destruct (Nat.eq_dec i k) as [->|Hik].
+        * rewrite !C_nth by assumption. exact E3.
+        * rewrite E4 by assumption. apply Hlt. lia.
+      + intros i Hi. rewrite E4 by lia. apply Hge. lia.
+  Qed.
+End Torus.
